@@ -471,10 +471,10 @@ def main():
     cand = [(x, stall_point(x)) for x in calm]
     cand = [(x, j) for x, j in cand if j is not None]
     rng.shuffle(cand)
-    nstall = 24 if thorough else 8
+    # (the stall must stay well below the handler's 5 s ping period, which runs from its first ping: a later tick
+    #  is outside the replay model)
+    nstall = 36 if thorough else 8
     picked = [dict(x, stall_at=j, stall_ms=stall_ms) for x, j in cand[:nstall]]
-    if thorough:
-        picked += [dict(x, stall_at=j, stall_ms=6500) for x, j in cand[nstall:nstall + 12]]
     if len(picked) < 4:
         raise vlib.InfraError("only %d schedules with a delivery pending across a write: long-stall family too thin" % len(picked))
     if not ck._nviol:
